@@ -54,6 +54,7 @@ func Scripted(prop string) []*Scenario {
 			prunedSideScenario(),
 			&Scenario{Name: "mixed", Nodes: nodes, Ops: []OpSpec{ins("m", 1, 1, 2), hdr("m", 1, 3, 7, 8), ins("m", 2, 3), {Sess: "m", Kind: "sethead", N: 3}, hdr("m", 2, 5, 6), ins("m", 3, 7), {Sess: "m", Kind: "reopen"}, ins("m", 3, 5, 6)}},
 		)
+		out = append(out, HeaderAfterShorterScenarios()...)
 	}
 	return out
 }
